@@ -157,7 +157,7 @@ def shrink_c09(scn, viol, test):
     used = set()
     for w in scn["worlds"]:
         for op in w["ops"]:
-            if op[0] in ("scan", "scan_node", "abort_scan", "scan_fresh"):
+            if op[0] in ("scan", "scan_node", "abort_scan", "scan_fresh", "scan_pre"):
                 used.add(op[2])
             elif op[0] == "par_scan":
                 used.update(j[0] for j in op[2])
